@@ -105,6 +105,7 @@ class Repo:
         self.overrides = overrides or {}
         self.modules: Dict[str, ModuleInfo] = {}
         self.files_parsed = 0
+        self.memo: Dict[object, object] = {}  # derived, read-only artefacts (walks, effect summaries, translations)
         self._load()
         self.constants = self._read_constants()
 
